@@ -3,11 +3,11 @@
    two scheduling points:
 
      Produce:  [W0] empty_.wait()   [L0] lock produce_at_mutex_
-               [ywrite] *produce_at_ = val; if (++produce_at_ == end_) produce_at_ = storage_
-               [U0] unlock          [P1] used_.post()
+               [ywrite] *produce_at_ = val; if (++produce_at_ == end_) produce_at_ = storage_; unlock (scope end)
+               [U0] scheduling point right after the unlock          [P1] used_.post()
      Consume:  [W1] used_.wait()    [L1] lock consume_at_mutex_
-               [yread] out = *consume_at_; if (++consume_at_ == end_) consume_at_ = storage_
-               [U1] unlock          [P0] empty_.post()                                         *)
+               [yread] out = *consume_at_; if (++consume_at_ == end_) consume_at_ = storage_; unlock (scope end)
+               [U1] scheduling point right after the unlock          [P0] empty_.post()                *)
 From PP Require Export Base.LTS.
 From Coq Require Export ZArith.
 
@@ -69,10 +69,10 @@ Section Pcq.
           else Some (mkQ (q_empty s) (q_used s) (q_slots s) (q_pat s) (q_cat s) true (q_cmx s)
                          (q_set_thread s i (QProd QPWrite todo)) (q_wlog s) (q_rlog s))
         | QPWrite =>
-          Some (mkQ (q_empty s) (q_used s) (upd (q_slots s) (q_pat s) v) (q_next (q_pat s)) (q_cat s) (q_pmx s) (q_cmx s)
+          Some (mkQ (q_empty s) (q_used s) (upd (q_slots s) (q_pat s) v) (q_next (q_pat s)) (q_cat s) false (q_cmx s)
                     (q_set_thread s i (QProd QPUnlock todo)) (q_wlog s ++ [v]) (q_rlog s))
         | QPUnlock =>
-          Some (mkQ (q_empty s) (q_used s) (q_slots s) (q_pat s) (q_cat s) false (q_cmx s)
+          Some (mkQ (q_empty s) (q_used s) (q_slots s) (q_pat s) (q_cat s) (q_pmx s) (q_cmx s)
                     (q_set_thread s i (QProd QPPost todo)) (q_wlog s) (q_rlog s))
         | QPPost =>
           Some (mkQ (q_empty s) (S (q_used s)) (q_slots s) (q_pat s) (q_cat s) (q_pmx s) (q_cmx s)
@@ -95,10 +95,10 @@ Section Pcq.
           else Some (mkQ (q_empty s) (q_used s) (q_slots s) (q_pat s) (q_cat s) (q_pmx s) true
                          (q_set_thread s i (QCons QCRead want got)) (q_wlog s) (q_rlog s))
         | QCRead =>
-          Some (mkQ (q_empty s) (q_used s) (q_slots s) (q_pat s) (q_next (q_cat s)) (q_pmx s) (q_cmx s)
+          Some (mkQ (q_empty s) (q_used s) (q_slots s) (q_pat s) (q_next (q_cat s)) (q_pmx s) false
                     (q_set_thread s i (QCons QCUnlock want (q_slots s (q_cat s) :: got))) (q_wlog s) (q_rlog s ++ [q_slots s (q_cat s)]))
         | QCUnlock =>
-          Some (mkQ (q_empty s) (q_used s) (q_slots s) (q_pat s) (q_cat s) (q_pmx s) false
+          Some (mkQ (q_empty s) (q_used s) (q_slots s) (q_pat s) (q_cat s) (q_pmx s) (q_cmx s)
                     (q_set_thread s i (QCons QCPost want got)) (q_wlog s) (q_rlog s))
         | QCPost =>
           Some (mkQ (S (q_empty s)) (q_used s) (q_slots s) (q_pat s) (q_cat s) (q_pmx s) (q_cmx s)
